@@ -351,6 +351,10 @@ class SED(object):
         # interpolate_variable) so we compare them to the SED apertures in AU
         sed_apertures = self.apertures.to(u.au).value
 
+        # Work in double precision: resetting values in an integer or
+        # single-precision array would truncate or round the maximum
+        apertures = np.array(apertures, dtype=float)
+
         # Create interpolating function
         flux_interp = interp1d(sed_apertures, self.flux.swapaxes(0, 1))
 
@@ -375,6 +379,10 @@ class SED(object):
 
         sed_apertures = self.apertures.to(u.au).value
         sed_wav = self.wav.to(u.micron).value
+
+        # Work in double precision: resetting values in an integer or
+        # single-precision array would truncate or round the maximum
+        apertures = np.array(apertures, dtype=float)
 
         # If any apertures are larger than the defined max, reset to max
         apertures[apertures > sed_apertures.max()] = sed_apertures.max() * 0.999
